@@ -324,7 +324,15 @@ def field_value(draw, k, depth):
         return draw(struct_value(k[2], depth + 1))
     if k[0] == "str":
         n = draw(st.one_of(st.sampled_from(SIZES), st.integers(1, 40), st.integers(1, 700)))
-        return utf8_text(n, draw)
+        text = utf8_text(n, draw)
+        edge = draw(st.integers(0, 9))             # now and then a NUL / blank / line end at either end (a codec must not trim anything)
+        if edge == 0:
+            text = text[:-1] + "\x00"
+        elif edge == 1:
+            text = draw(st.sampled_from(["\x00", " ", "\n", "\t"])) + text[1:]
+        elif edge == 2:
+            text = text[:-1] + draw(st.sampled_from([" ", "\n", "\r", "\t"]))
+        return text
     if k[0] == "bytes":
         n = draw(st.one_of(st.sampled_from(SIZES), st.integers(1, 24), st.integers(1, 700)))
         return draw(st.binary(min_size=n, max_size=n)) if n <= 24 else pat(n, draw(st.integers(0, 255)))
@@ -386,7 +394,7 @@ def enum_boundary(tier):
             elif k[0] == "bytes":
                 vals = [pat(n, 3) for n in SIZES] + [b"\x00\x00", b"\x00", b"\xff" * 255, b"\x00" * 256]
             elif k[0] == "str":
-                vals = ["a" * n for n in SIZES] + ["é" * 127 + "a", "é" * 128, "€" * 85, "€" * 170 + "a"]
+                vals = ["a" * n for n in SIZES] + ["é" * 127 + "a", "é" * 128, "€" * 85, "€" * 170 + "a", "a\x00", "\x00", "ab\x00\x00", "\x00a", " a ", "a\n", "\ta", "a" * 254 + "\x00"]
             else:
                 continue
             for v in vals:
